@@ -58,22 +58,23 @@ type Violation struct {
 }
 
 type ScriptVal struct {
-	Kind  string `json:"kind"`
-	Label string `json:"label"`
-	I     int64  `json:"i"`
+	Kind  string  `json:"kind"`
+	Label string  `json:"label"`
+	I     int64   `json:"i"`
 	F     float64 `json:"f"`
-	B     bool   `json:"b"`
-	Rat   string `json:"rat,omitempty"`
-	Bits  string `json:"bits,omitempty"`
+	B     bool    `json:"b"`
+	Rat   string  `json:"rat,omitempty"`
+	Bits  string  `json:"bits,omitempty"`
 }
 
 type ObservedVal struct {
-	Tag string  `json:"tag"`
-	Val string  `json:"val"`
-	F   float64 `json:"f"`
-	I   int64   `json:"i"`
-	B   bool    `json:"b"`
-	Sort string `json:"sort"`
+	Tag  string  `json:"tag"`
+	Val  string  `json:"val"`
+	F    float64 `json:"f"`
+	I    int64   `json:"i"`
+	B    bool    `json:"b"`
+	Sort string  `json:"sort"`
+	UF   bool    `json:"depends_on_uninterpreted,omitempty"`
 }
 
 type frame struct {
@@ -95,29 +96,29 @@ type Interp struct {
 	decisions []int
 	spawn     func(prefix []int)
 
-	globals  map[*ssa.Global]*Object
-	nobj     int
-	nondets  []Nondet
-	reached  map[string]int
-	observes []Observation
-	asserts  map[string]int // message -> times checked on this path
-	viols    []*Violation
-	notes    map[string]int
-	cuts     map[string]int
-	steps    int
-	depth    int
-	branches int
-	ndSrc    int // nondeterminism sources consumed (map range order, time, ...)
-	funcsHit map[*ssa.Function]bool
-	loopCnt  map[*ssa.BasicBlock]int
-	access   *accessLog
-	ovf      []*Term
-	unknownFeas int
-	specDepth   int
-	model       Model
-	evalSkips   int
-	merges      int
-	mergeAborts int
+	globals      map[*ssa.Global]*Object
+	nobj         int
+	nondets      []Nondet
+	reached      map[string]int
+	observes     []Observation
+	asserts      map[string]int // message -> times checked on this path
+	viols        []*Violation
+	notes        map[string]int
+	cuts         map[string]int
+	steps        int
+	depth        int
+	branches     int
+	ndSrc        int // nondeterminism sources consumed (map range order, time, ...)
+	funcsHit     map[*ssa.Function]bool
+	loopCnt      map[*ssa.BasicBlock]int
+	access       *accessLog
+	ovf          []*Term
+	unknownFeas  int
+	specDepth    int
+	model        Model
+	evalSkips    int
+	merges       int
+	mergeAborts  int
 	harnessState map[string]Value
 }
 
@@ -349,7 +350,7 @@ func (in *Interp) modelScript(extra []*Term) (string, []ScriptVal, []ObservedVal
 	obs := make([]ObservedVal, len(in.observes))
 	for i, o := range in.observes {
 		mv := vals[len(in.nondets)+i]
-		obs[i] = ObservedVal{Tag: o.Tag, Val: mv.String(), F: sanitize(mv.F), I: mv.I, B: mv.B, Sort: o.T.sort.String()}
+		obs[i] = ObservedVal{Tag: o.Tag, Val: mv.String(), F: sanitize(mv.F), I: mv.I, B: mv.B, Sort: o.T.sort.String(), UF: hasUF(o.T, map[*Term]bool{})}
 	}
 	return "sat", script, obs
 }
@@ -1634,4 +1635,21 @@ func (in *Interp) builtin(b *ssa.Builtin, args []Value, c *ssa.CallCommon, site 
 	}
 	in.unsupported("builtin %s on %T at %s", b.Name(), args[0], site)
 	return nil
+}
+
+// hasUF reports whether a term depends on an uninterpreted function (whose model interpretation has no native counterpart).
+func hasUF(t *Term, seen map[*Term]bool) bool {
+	if seen[t] {
+		return false
+	}
+	seen[t] = true
+	if t.op == OUF || t.op == OSqrt {
+		return true
+	}
+	for _, a := range t.args {
+		if hasUF(a, seen) {
+			return true
+		}
+	}
+	return false
 }
